@@ -50,8 +50,13 @@ def r1(run):
         if not any(y[0] == "field" and y[2] == "meta" for y in walk(cond)):
             continue
         keys, cmp_self = [], False
+        rels = set()
         for (cb, agg) in closure_bodies_in(run, cond):
             run.touch(cb)
+            for (rb2, e2, raw2) in cb.return_defs():
+                cm2 = q.comparison(e2)
+                if cm2:
+                    rels.add(cm2[0])
             for c in cb.calls():
                 if c.fn.endswith("Value::get"):
                     keys += q.const_strs(c.arg(1))
@@ -64,10 +69,12 @@ def r1(run):
                             if po is not None and any(y[0] == "field" and y[2] == "id" and any(z[0] == "field" and z[1][0] == "env" and z[2] == "self" for z in walk(y)) for y in walk(po[1])):
                                 cmp_self = True
         positive = cond[1].fn.endswith(("is_some", "is_some_and"))
-        guards.append((bb, keys, cmp_self, q.edge_triples(sv, bb, lambda m: m is (not positive))))
+        guards.append((bb, keys, cmp_self, q.edge_triples(sv, bb, lambda m: m is (not positive)), rels))
     mine = [g for g in guards if "handler_id" in g[1] and g[2]]
     run.exact("own-output tests (meta.handler_id == self.id)", len(mine), 1, sv.sp)
-    for (bb, keys, cmp_self, not_own_edges) in mine:
+    for (bb, keys, cmp_self, not_own_edges, rels) in mine:
+        run.ob(HANDLER + "::serve|own-output-test-is-equality", rels == {"eq"}, sv.blocks[bb]["term"]["sp"],
+               "the closure that compares meta.handler_id with the handler's own id answers true exactly when they are EQUAL (%s)" % sorted(rels), reason="handler-feeds-itself")
         for c in pf:
             run.ob(HANDLER + "::serve|own-output-filtered", bool(not_own_edges) and q.dominated(sv, c.bb, via_edges=not_own_edges), c.sp,
                    "process_frame is reached only on the 'meta.handler_id is not my id' edge", reason="handler-feeds-itself")
@@ -121,6 +128,14 @@ def r2(run):
         reg = F.suffix_tests(sv, ".register") + F.suffix_tests(sv, ".unregister")
         run.ob(HANDLER + "::serve|skip-limited-to-registration-traffic", bool(reg) and q.dominated(sv, bb, via_edges=reg), sv.blocks[bb]["term"]["sp"],
                "the id comparison is evaluated only for `<topic>.register` / `<topic>.unregister` frames", reason="foreign-frames-skipped")
+        # ... and for each of the two kinds on its own (`||`, not `&&`)
+        r_e, u_e = F.suffix_tests(sv, ".register"), F.suffix_tests(sv, ".unregister")
+        cut = [r.bb for r in recvs]
+        for name, mine_e, other_e in ((".register", r_e, u_e), (".unregister", u_e, r_e)):
+            only = [e for e in mine_e if e not in other_e]
+            reach2 = sv.reachable_blocks([t for (_, t, _) in only], removed_edges=[e for e in other_e if e not in mine_e], removed_blocks=cut) if only else set()
+            run.ob(HANDLER + "::serve|skip-covers|%s" % name, bb in reach2 or any(t == bb for (_, t, _) in only), sv.blocks[bb]["term"]["sp"],
+                   "an old `<topic>%s` frame reaches the `frame.id <= self.id` skip on its own" % name, reason="old-registration-processed")
 
 
 def r3(run):
@@ -231,6 +246,22 @@ def r5(run):
             st = dict(zip(c06.read_options_slots(run), info["state"]))
             run.ob(HANDLER + "::configure_read_options|slots", st.get("tail") == "Set" and st.get("last_id") == "Set" and st.get("follow") == "Set", cb.sp,
                    "follow, tail and last_id slots are set from the mapping (%s)" % st, reason="resume-mapping")
+            fa = info["setters"].get("follow")
+            variants = set()
+            if fa is not None and fa[0] is not None:
+                for o in list(q.origins(fa[0])) + [fa[0]]:
+                    for y in walk(o):
+                        if y[0] == "agg" and y[1].get("adt", "").endswith("FollowOption"):
+                            variants.add(y[1].get("variant"))
+                        if y[0] == "agg" and y[1].get("def"):
+                            sub = run.facts.body(y[1]["def"])
+                            if sub is not None:
+                                for (rb3, e3, raw3) in sub.return_defs():
+                                    for z in walk(e3):
+                                        if z[0] == "agg" and z[1].get("adt", "").endswith("FollowOption"):
+                                            variants.add(z[1].get("variant"))
+            run.ob(HANDLER + "::configure_read_options|always-follows", bool(variants) and "Off" not in variants, cb.sp,
+                   "a handler's subscription always follows the stream (On, or WithHeartbeat when a pulse is configured): %s" % sorted(variants), reason="handler-stops-after-history")
     c06.r7(run)
 
 
